@@ -322,8 +322,8 @@ func (o *Observation) guard(stage string, f func() error) (err error) {
 			if r := simrt.Current(); r != nil && r.Aborted != nil {
 				if ov, ok := r.Aborted.(simrt.Overflow); ok {
 					pi.Class, pi.Frame = "stack-overflow", innermostCogFrame(ov.Func+"(")
-				} else {
-					pi.Class = "hang"
+				} else if h, ok := r.Aborted.(simrt.Hang); ok {
+					pi.Class, pi.Frame = "hang", innermostCogFrame(h.Func+"(")
 				}
 			}
 			o.Panics = append(o.Panics, pi)
